@@ -2,6 +2,7 @@ import Xrl.Core.Proto
 import Xrl.Spec.Lookup
 import Xrl.Spec.Interp
 import Xrl.Spec.DataInv
+import Xrl.Spec.Scatter
 /-!
 # `spec.*` operations of the driver: the executable specifications in the `Float` reading
 
@@ -36,6 +37,13 @@ def dispatchSpec (T : Tables Float) (fn : String) (a : Array String) : Option St
   | "spec.FF_Rayl", 2 => some (fmtE (Spec.FF_Rayl T (pI a[0]!) (pF a[1]!)))
   | "spec.SF_Compt", 2 => some (fmtE (Spec.SF_Compt T (pI a[0]!) (pF a[1]!)))
   | "spec.ComptonProfile", 2 => some (fmtE (Spec.ComptonProfile T (pI a[0]!) (pF a[1]!)))
+  | "spec.DCS_Thoms", 1 => some (fmtE (Spec.DCS_Thoms (pF a[0]!)))
+  | "spec.DCSP_Thoms", 2 => some (fmtE (Spec.DCSP_Thoms (pF a[0]!) (pF a[1]!)))
+  | "spec.DCS_KN", 2 => some (fmtE (Spec.DCS_KN (pF a[0]!) (pF a[1]!)))
+  | "spec.DCSP_KN", 3 => some (fmtE (Spec.DCSP_KN (pF a[0]!) (pF a[1]!) (pF a[2]!)))
+  | "spec.CS_KN", 1 => some (fmtE (Spec.CS_KN (pF a[0]!)))
+  | "spec.ComptonEnergy", 2 => some (fmtE (Spec.ComptonEnergy (pF a[0]!) (pF a[1]!)))
+  | "spec.MomentTransf", 2 => some (fmtE (Spec.MomentTransf (pF a[0]!) (pF a[1]!)))
   | "spec.shapeFailures", 0 => some ("shape " ++ toString ((Spec.shapeFailures T).map (fun p => p.1 ++ ":" ++ toString p.2)))
   | _, _ => none
 
